@@ -878,6 +878,15 @@ def model_specs(draw, **kw):
           _embedding_source(g)
         continue
       _apply(g, draw(st.sampled_from(ops)), x, cfg)
+    # a dynamic batch dimension propagates to what is computed from it (the
+    # converter writes shape_signature on every such tensor, static extent kept)
+    for n in g.nodes:
+      srcs = [g.tensors[t] for t in n['in'] if t >= 0 and g.tensors[t].get('shape_signature')]
+      for t in n['out']:
+        ot = g.tensors[t]
+        if srcs and ot['shape'] and any(ot['shape'][0] == s0['shape'][0] for s0 in srcs) and \
+            n['op'] not in ('TRANSPOSE', 'RESHAPE', 'MEAN', 'STRIDED_SLICE', 'SPLIT', 'EMBEDDING_LOOKUP'):
+          ot['shape_signature'] = [-1] + list(ot['shape'][1:])
     consumed = {t for n in g.nodes for t in n['in'] if t >= 0}
     produced = [t for n in g.nodes for t in n['out']]
     sinks = [t for t in produced if t not in consumed]
